@@ -430,25 +430,55 @@ class SimWorld(World):
             return int(rcs[min(ep, len(rcs) - 1)])
         return int(spec.get("rc", 0))
 
+    def _job_event_lines(self, job, spec, n):
+        lines = []
+        for i in range(n):
+            ev = {"category": "user", "data": {"i": i, "job": job.name}, "event_class": "StructuredLogEvent",
+                  "message": f"user event {i}", "name": spec.get("event_name", "user_event"),
+                  "source": job.name,
+                  "timestamp": str(seams.SimDateTime.fromtimestamp(job.launch_time + (i + 1) * 0.001))}
+            lines.append(json.dumps(ev, sort_keys=True))
+        return lines
+
+    def job_started(self, job):
+        """A job that logs structured events opens its events.log when it starts, writes its first event
+        and keeps the file open until it exits (as the JADE event logger of a job process does)."""
+        spec = self.jobspec.get(job.name) or {}
+        n = int(spec.get("events", 0))
+        out = job.env.get("JADE_RUNTIME_OUTPUT")
+        if n >= 2 and out:
+            d = os.path.join(out, "job-outputs", job.name)
+            seams.REAL["os.makedirs"](d, exist_ok=True)
+            path = os.path.join(d, "events.log")
+            job._evf = seams.REAL["open"](path, "a")
+            ln = self._job_event_lines(job, spec, n)[0]
+            job._evf.write(ln + "\n")
+            job._evf.flush()
+            job._ev_written = 1
+            self.emit("event", None, path=self.rel(path), line=ln, job=job.name)
+
     def job_side_effects(self, job):
         spec = self.jobspec.get(job.name) or {}
         n = int(spec.get("events", 0))
         out = job.env.get("JADE_RUNTIME_OUTPUT")
         if n and out:
             d = os.path.join(out, "job-outputs", job.name)
-            os.makedirs(d, exist_ok=True)
-            lines = []
-            for i in range(n):
-                ev = {"category": "user", "data": {"i": i, "job": job.name}, "event_class": "StructuredLogEvent",
-                      "message": f"user event {i}", "name": spec.get("event_name", "user_event"),
-                      "source": job.name,
-                      "timestamp": str(seams.SimDateTime.fromtimestamp(job.launch_time + (i + 1) * 0.001))}
-                lines.append(json.dumps(ev, sort_keys=True))
-            with open(os.path.join(d, "events.log"), "a") as f:
+            path = os.path.join(d, "events.log")
+            lines = self._job_event_lines(job, spec, n)
+            f = getattr(job, "_evf", None)
+            if f is not None:
+                # the handle opened at start: if somebody moved or unlinked the file meanwhile, these lines
+                # go to the old inode
+                lines = lines[getattr(job, "_ev_written", 0):]
+                job._evf = None
+            else:
+                os.makedirs(d, exist_ok=True)
+                f = open(path, "a")
+            with f:
                 for ln in lines:
                     f.write(ln + "\n")
             for ln in lines:
-                self.emit("event", None, path=self.rel(os.path.join(d, "events.log")), line=ln, job=job.name)
+                self.emit("event", None, path=self.rel(path), line=ln, job=job.name)
 
     def run_real_probe(self, argv, env, rc):
         """C19 real-probe mode: execute the launch for real (synchronously, so that nothing
@@ -487,11 +517,17 @@ class SimWorld(World):
         live process on the caller's node."""
         if pid in self.stat_procs:
             return self.stat_procs[pid]
+        job = self.stat_job(vp, pid)
+        return job.name if job is not None else None
+
+    def stat_job(self, vp, pid):
+        """The simulated job process `pid` on the caller's node while it is in the process table:
+        running, or exited and not yet waited for by its parent (a zombie)."""
         x = vp
         while x is not None:
-            for job in self.shell.live_jobs.get(x.id, []):
-                if job.pid == pid and not job.done and not job.killed:
-                    return job.name
+            for job in self.shell.jobs_of(x.id):
+                if job.pid == pid and not job.killed and job.returncode is None:
+                    return job
             x = x.parent
         return None
 
